@@ -763,7 +763,9 @@ class Sim(object):
         if to_first and self.pp is not None:
             alive_at_timeout = self.t_exited is None or self.t_exited > t_to
             asked = [s for s in self.signals if s[0] > t_to and s[1] in ('TERM', 'KILL', '15', '9')]
-            if alive_at_timeout and not asked:
+            # (only while the launch is still undecided: nothing else had completed it before the timeout)
+            undecided = not [1 for o in self.observers for r in o.results[:1] if r[0] < t_to]
+            if alive_at_timeout and undecided and not asked:
                 self.bad('timeout_signals_process_to_terminate', 'no_TERM_after_timeout',
                          'observed: the timeout elapsed (tick %d) with the process still running and no TERM/KILL was sent (signals %r); '
                          'expected: the process is signalled to terminate' % (t_to, self.signals))
